@@ -760,7 +760,7 @@ def apply_op(doc: Doc, op):
             'reclaim_leading': 'claim_leading_comment', 'reclaim_trailing': 'claim_trailing_comment',
             'claim_inter': 'claim_interleaving_comments', 'unclaim_inter': 'unclaim_interleaving_comments',
             'reclaim_inter': 'claim_interleaving_comments', 'auto': 'auto_claim_comments',
-            'auto2': 'auto_claim_comments'}[name]
+            'auto2': 'auto_claim_comments', 'assign': 'claim_leading_comment'}[name]
     if tgt is None or not hasattr(tgt, need):
         return 'skip', extra
     exc = None
@@ -804,6 +804,26 @@ def apply_op(doc: Doc, op):
                     if len(doc.log) == k0 + 2 and doc.log[k0]['op'] == 'unclaim_inter' \
                             and doc.log[k0 + 1]['op'] == 'claimer' and not doc.log[k0 + 1]['exc']:
                         doc.log[k0]['mode'] = 3      # hypotheses of the interleaving restore theorem
+            elif name == 'assign':
+                # node-level assignment: a deep copy of an unowned comment becomes tgt's leading comment
+                cs = comments_by_index(doc, [arg['src']])
+                if cs and not cs[0].claimed and lead_of(tgt) is None:
+                    before = doc.snap()
+                    seen = {i for i, _ in before}
+                    cc = copy.deepcopy(cs[0])
+                    tgt.raw_leading_comment = cc
+                    extra['edited'] = True
+                    full = doc.full()
+                    ids_after = [i for (i, _, _, _) in full]
+                    new = [(i, k, x) for (i, k, x, _) in full if i not in seen]
+                    k0 = ids_after.index(new[0][0]) if new else 0
+                    if not new or ids_after[k0:k0 + len(new)] != [i for i, _, _ in new] or \
+                            [i for i in ids_after if i in seen] != [i for i, _ in before]:
+                        extra['unmodelled'] = True
+                    doc.log.append({'op': 'attach', 'slot': ('SLead', doc.nid(tgt)), 'pos': 0,
+                                    'after_tok': ids_after[k0 - 1] if k0 > 0 else None, 'new': new,
+                                    'c': doc.tid(cc), 'before': before, 'after': doc.snap(), 'exc': None,
+                                    'ret': [], 'slot_after': [doc.tid(cc)], 'mode': 0})
             elif name in ('auto', 'auto2'):
                 tgt.auto_claim_comments()
                 if name == 'auto2':
@@ -822,7 +842,16 @@ def apply_op(doc: Doc, op):
 # ---------------------------------------------------------------------------------------------
 # monitors
 def visible(doc: Doc):
+    """the tokens with visible text (what C04 speaks about): identity, kind, text, in store order"""
+    return [(i, k, x) for (i, k, x, _) in doc.full() if x != '']
+
+
+def visible_strict(doc: Doc):
+    """stricter than the property: also the zero-width marks (Eol, DedentMark), everything but placeholders"""
     return [(i, k, x) for (i, k, x, _) in doc.full() if k != 'Placeholder']
+
+
+STRICT_NOTES: list = []      # stricter-than-the-property observations (reported as notes, never as failures)
 
 
 def check_ownership(doc: Doc):
@@ -850,7 +879,8 @@ def readonly_sweep(doc: Doc, rng, budget: int = 400):
     """C04: reading every public attribute / view, iterating, ==, hash, deepcopy, print. Returns message or None."""
     import inspect
     text0 = print_text(doc.file)
-    snap0 = doc.full()
+    snap0 = visible(doc)
+    strict0 = doc.full()
     n = 0
     for path, m in doc.nodes():
         objs = [m]
@@ -884,8 +914,8 @@ def readonly_sweep(doc: Doc, rng, budget: int = 400):
                 repr(v)
             except Exception:
                 pass
-        if doc.full() != snap0:
-            return f'reading the attributes of {path} ({type(m).__name__}) changed the store'
+        if visible(doc) != snap0:
+            return f'reading the attributes of {path} ({type(m).__name__}) changed the visible tokens'
     sur, wrap, allm = doc.targets()
     for path, m in rng.sample(allm, min(4, len(allm))):
         try:
@@ -894,10 +924,12 @@ def readonly_sweep(doc: Doc, rng, budget: int = 400):
             print_text(m)
         except Exception:          # a failing deepcopy is C11's business; here only "does not change the document"
             pass
-        if doc.full() != snap0:
-            return f'deepcopy/==/print of {path} changed the store'
+        if visible(doc) != snap0:
+            return f'deepcopy/==/print of {path} changed the visible tokens'
     if print_text(doc.file) != text0:
         return 'read-only calls changed the printed text'
+    if doc.full() != strict0:
+        STRICT_NOTES.append('read-only calls changed zero-width tokens / flags (stricter than C04)')
     return None
 
 
@@ -932,20 +964,25 @@ def coq_prim(rec, patched: bool):
     if rec['op'] == 'claim':
         ind = 'None' if not patched or rec.get('ind') is None else f'(Some {common.coq_bool(rec["ind"])})'
         ctor = 'ClaimLead' if rec['which'] == 'lead' else 'ClaimTrail'
-        call = f'OS ({ctor} {rec["n"]} {rec["start"]} {common.coq_bool(rec["ign"])} {ind})'
+        call = f'EC (OS ({ctor} {rec["n"]} {rec["start"]} {common.coq_bool(rec["ign"])} {ind}))'
         ret = coq_list_z([] if rec['ret'] is None else [rec['ret']])
     elif rec['op'] == 'claimer':
         flt = 'None' if rec['filter'] is None else f'(Some {common.coq_zlist(rec["filter"])})'
-        call = f'OClaimInter {rec["r"]} {rec["ph"]} {coq_items(rec["items"])} {rec["mfirst"]} {rec["mlast"]} {flt}'
+        call = f'EC (OClaimInter {rec["r"]} {rec["ph"]} {coq_items(rec["items"])} {rec["mfirst"]} {rec["mlast"]} {flt})'
         ret = coq_list_z(rec['ret'])
         items_after = common.coq_list(f'({common.coq_bool(a)},{b})' for a, b in rec['items_after'])
+    elif rec['op'] == 'attach':
+        new = common.coq_list(coq_tok(i, k, x[:3], False) for (i, k, x) in rec['new'])
+        call = (f'EAttach ({rec["slot"][0]} {rec["slot"][1]}) {rec["pos"]}%nat {coq_optz(rec["after_tok"])} {new} '
+                f'{rec["c"]}')
+        ret = '[]'
     elif rec['op'] == 'unclaim':
         ctor = 'UnclaimLead' if rec['which'] == 'lead' else 'UnclaimTrail'
-        call = f'OS ({ctor} {rec["n"]})'
+        call = f'EC (OS ({ctor} {rec["n"]}))'
         ret = coq_list_z([] if rec['ret'] is None else [rec['ret']])
     else:
         flt = 'None' if rec['filter'] is None else f'(Some {common.coq_zlist(rec["filter"])})'
-        call = f'OUnclaimInter {rec["r"]} {coq_items(rec["items"])} {flt}'
+        call = f'EC (OUnclaimInter {rec["r"]} {coq_items(rec["items"])} {flt})'
         ret = coq_list_z(rec['ret'])
         items_after = common.coq_list(f'({common.coq_bool(a)},{b})' for a, b in rec['items_after'])
     slot = coq_list_z(rec['slot_after'])
@@ -1097,17 +1134,33 @@ def run_document(ctx, prop: str, lines, crlf, final_nl, ops_seed, n_ops, witness
             ctx.dist('handover=' + ('both' if spec['below'] is not None and spec['above'] is not None else
                                     'below' if spec['below'] is not None else
                                     'above' if spec['above'] is not None else 'other-class'))
+    # node-level assignment: unclaim -> deep copy -> another model's leading comment -> everybody tries to claim
+    if got_blocks_ok(Doc(text, False), blocks):
+        d0 = Doc(text, False)
+        st0 = d0.file.token_store
+        by_line = {st0.get_position(own_start_token(m)).line: p for p, m in d0.targets()[0]
+                   if own_start_token(m) is not None}
+        for a in [a for a in hand if NEIGHBOURS[a]['below'] is not None][:1]:
+            pb = by_line.get(NEIGHBOURS[a]['below'])
+            others = [p for p, m in d0.targets()[0] if p != pb]
+            if pb is not None and others:
+                px = rng.choice(others)
+                idx = [x for x, _ in blocks].index(a)
+                plans.append((False, [['claim_leading', pb, False], ['unclaim_leading', pb, None],
+                                      ['assign', px, {'src': idx}], ['auto', 'F', None], ['auto2', 'F', None]]))
     for flag, plan in plans:
         doc = Doc(text, flag)
         full0 = doc.full()
-        vis0 = visible(doc)
+        vis0, strict0, base_text = visible(doc), visible_strict(doc), text
         ops = plan if plan is not None else gen_ops(rng, doc, n_ops)
         prims = []
+        unmodelled = False
         for k, op in enumerate(ops):
             before = doc.snap()
             exc, extra = apply_op(doc, op)
             if exc == 'skip':
                 continue
+            unmodelled = unmodelled or bool(extra.get('unmodelled'))
             ctx.count('impl_api_calls')
             ctx.dist('op=' + op[0])
             if exc:
@@ -1123,13 +1176,17 @@ def run_document(ctx, prop: str, lines, crlf, final_nl, ops_seed, n_ops, witness
                 ctx.count('store_changed_outside_primitives')
             prims.extend(doc.log)
             # C04
+            if extra.get('edited'):
+                # a node-level assignment is an edit: C04 does not speak about it; new baselines
+                vis0, strict0, base_text = visible(doc), visible_strict(doc), print_text(doc.file)
             if visible(doc) != vis0:
-                mon('C04', 'C04:visible-tokens', f'{op[0]} on {op[1]} created/dropped/re-ordered/altered a visible '
-                    f'token', w)
-            elif print_text(doc.file) != text:
+                mon('C04', 'C04:visible-tokens', f'{op[0]} on {op[1]} created/dropped/re-ordered/altered a token '
+                    f'with visible text', w)
+            elif print_text(doc.file) != base_text:
                 mon('C04', 'C04:text', f'{op[0]} on {op[1]} changed the printed text', w)
-            if sorted(i for i, _ in doc.snap()) != sorted(i for i, _ in before):
-                mon('C04', 'C04:token-set', f'{op[0]} on {op[1]} changed the set of tokens in the store', w)
+            elif visible_strict(doc) != strict0 or \
+                    (not extra.get('edited') and sorted(i for i, _ in doc.snap()) != sorted(i for i, _ in before)):
+                STRICT_NOTES.append(f'{op[0]} changed zero-width marks / the placeholder set (stricter than C04)')
             # C14
             msg = check_ownership(doc)
             if msg:
@@ -1162,10 +1219,22 @@ def run_document(ctx, prop: str, lines, crlf, final_nl, ops_seed, n_ops, witness
                 elif cp.table() != doc.table():
                     mon('C14', 'C14:ownership-in-copy', 'a deep copy of the document attributes comments differently',
                         {'flag': flag, 'ops': ops})
-        hists[flag].append(prims)
+        if unmodelled:
+            ctx.count('histories_with_unmodelled_edit')
+        else:
+            hists[flag].append(prims)
+            metas[flag].append(ops)
+        comment_ids = {i + 1 for i, o in enumerate(doc.objs) if type(o).__name__ == 'BlockComment'}
+        for p in prims:
+            if p.get('mode') == 1:
+                allc = all(c for i, c in p['before'] if i in comment_ids)
+                ctx.count('hyp_idempotence_all_claimed_true' if allc else 'hyp_idempotence_all_claimed_false')
+            elif p['op'] == 'claimer':
+                ctx.count('hyp_op_ok_claimer_evaluated')
+            elif p['op'] == 'attach':
+                ctx.count('hyp_attach_ok_evaluated')
         if doc.private_mismatch:
             ctx.count('private_public_argument_mismatch', doc.private_mismatch)
-        metas[flag].append(ops)
         ctx.count('impl_primitive_calls', len(prims))
         for p in prims:
             ctx.dist('prim=' + p['op'] + ('' if not p['exc'] else ':' + p['exc']))
@@ -1310,6 +1379,10 @@ def run_all(ctx, prop: str, n_quick: int, n_thorough: int):
         finally:
             set_lf(1000)
         all_cases.extend(cs)
+    if STRICT_NOTES:
+        ctx.count('stricter_than_property_observations', len(STRICT_NOTES))
+        ctx.notes.append('stricter than C04 (not a failure): ' + '; '.join(sorted(set(STRICT_NOTES))[:4]))
+        del STRICT_NOTES[:]
     if ctx.counters.get('layouts_parsed', 0) < len(docs) // 3:
         ctx.fail('tie', 'generator', 'most generated layouts are rejected by the parser')
     texts = [c[0] for c in all_cases]
